@@ -382,7 +382,9 @@ def handleTx (ds : DS) (j : Json) : IO DS := do
   let anteOk := anteOk && (!ds.hasVest || pre.accts.contains signer)
   let r0 : Option (Except Err MW) := if anteOk then applyMsgs ds preStake msgs { pre with l := lFee } else some (.error ⟨"basic:ante"⟩)
   -- the staking module is not modelled: whether its own message is accepted is taken from the implementation
-  let r0 : Option (Except Err MW) := if kind.startsWith "staking." && code != 0 && r0.isSome then some (.error ⟨"staking:refused"⟩) else r0
+  let r0 : Option (Except Err MW) := match r0 with
+    | some (.ok _) => if ds.hasShield && kind.startsWith "staking." && code != 0 then some (.error ⟨"staking:refused"⟩) else r0
+    | _ => r0
   -- the dry run of the claim handler at submission goes through the staking store; a panic there is a failed transaction the model cannot foresee
   let r0 : Option (Except Err MW) := match r0 with
     | some (.ok _) => if kind == "gov.submit" && code != 0 && ((J.strOf j "log").splitOn "panic").length > 1 && msgs.any (fun m => J.strOf m "kind" == "claim")
